@@ -1,4 +1,5 @@
 import ZorgVerif.Lemmas.Zo
+import ZorgVerif.Gen.FileLexer
 /-!
 # C02 — Notes inherit metadata from the page title and enclosing sections only
 Model: `Model/Zo.lean`.  A note is built by `finishItem` from the file scope, the stack of open section
@@ -53,5 +54,16 @@ theorem C02_flags (q : Bool) (sc sc' : Scope) (tt tp td : Bool) (ev : Ev) :
 theorem C02_innermost_wins (outer inner : List (Str × Str)) (k : Str) :
     (mergeProps outer inner).lookup k = (inner.lookup k).orElse (fun _ => outer.lookup k) :=
   mergeProps_lookup outer inner k
+
+/-! Non-vacuity: a concrete page through the generated lexer and the model — file scope, an H1 with two H2 children that
+override / do not override `k`, and a second H1 (what the sibling after an overriding section sees is seed C02-2's case) -/
+private def compileText (s : String) : Except Err PageResult :=
+  compileToks ⟨2024, 6, 15⟩ "P3".toList ((lex Gen.FileLexer.rules s.toList).filter (·.name != "<err>"))
+
+example : (match compileText "# T #ft k::file\n\n- n0\n\n################################ A #a k::1\n- n1\n\n======================== B #b k::2\n- n2\n\n======================== C #c\n- n3\n\n################################ D\n- n4\n" with
+    | .ok r => r.notes.map (fun (n : Note) => (n.line, n.areas.map Str.toStr, n.props.map (fun (kv : Str × Str) => (Str.toStr kv.1, Str.toStr kv.2))))
+    | .error _ => []) =
+  [(3, ["ft"], [("k", "file")]), (6, ["a", "ft"], [("k", "1")]), (9, ["a", "b", "ft"], [("k", "2")]),
+   (12, ["a", "c", "ft"], [("k", "1")]), (15, ["ft"], [("k", "file")])] := by decide +kernel
 
 end ZorgVerif.C02
